@@ -7,6 +7,7 @@ import (
 	"time"
 
 	"go.miragespace.co/specter/spec/chord"
+	"go.uber.org/zap"
 	"verifharness/internal/ringsim"
 
 	"pgregory.net/rapid"
@@ -39,6 +40,9 @@ type churnPlan struct {
 	// SlowReleaseMs > 0: every FinishJoin/FinishLeave(release) is delivered that much later, so
 	// membership locks are held long enough for competing attempts to run out of retries
 	SlowReleaseMs int `json:"slow_release_ms,omitempty"`
+	// LogJitterPct > 0: every log statement / child-logger derivation inside the nodes yields
+	// with that probability (schedule points inside functions, see ringsim.JitterLogger)
+	LogJitterPct int `json:"log_jitter_pct,omitempty"`
 }
 
 func genChurnPlan(maxInitial, maxPhases, maxActions int, anchors ...uint64) *rapid.Generator[churnPlan] {
@@ -56,6 +60,7 @@ func genChurnPlan(maxInitial, maxPhases, maxActions int, anchors ...uint64) *rap
 			Seed:     rapid.Int64Range(1, 1<<40).Draw(t, "netSeed"),
 		}
 		p.SlowReleaseMs = rapid.SampledFrom([]int{0, 0, 0, 40, 90}).Draw(t, "slowReleaseMs")
+		p.LogJitterPct = rapid.SampledFrom([]int{0, 0, 15, 50}).Draw(t, "logJitterPct")
 		nPhases := rapid.IntRange(1, maxPhases).Draw(t, "phases")
 		all := append([]uint64{}, initial...)
 		for ph := 0; ph < nPhases; ph++ {
@@ -329,8 +334,18 @@ func (r *simRing) allMembers() []*ringsim.Member {
 	return out
 }
 
+// churnLogger: nil (no logging, no yields) or the jittering logger of the plan.
+func churnLogger(plan churnPlan) *zap.Logger {
+	if plan.LogJitterPct <= 0 {
+		return nil
+	}
+	l, _ := ringsim.JitterLogger(plan.Seed, plan.LogJitterPct, 150*time.Microsecond)
+	return l
+}
+
 func newChurnRing(plan churnPlan, keepLog bool) *simRing {
 	return newSimRing(ringsim.Config{
+		Logger:     churnLogger(plan),
 		Seed:       plan.Seed,
 		MaxDelay:   time.Duration(plan.MaxDelay) * time.Microsecond,
 		DelayProb:  float64(plan.DelayPct) / 100,
